@@ -118,6 +118,7 @@ package preference_reversal
 //@          ((q in nw.Criteria <==> q in od.Criteria) && (q in nw.Criteria ==> nw.Criteria[q] == od.Criteria[q])))
 
 //@ func (*PreferenceReversal).Apply
+//@   refines model.Bias.Apply
 //@   property C16 C09 C07
 //@   requires model.distinctCriteria(current.Criteria) && model.validParams(*listener, current.MethodParameters) && model.coversAll(*listener, current.MethodParameters, current.Criteria)
 //@   requires distinctAll(current.ConsideredAlternatives, current.NotConsideredAlternatives)
